@@ -701,3 +701,219 @@ func throughParams(v ssa.Value) ssa.Value {
 	}
 	return v
 }
+
+// laNonNull (C01, C04): the number of values stored in a page of an optional column is the number of definition levels
+// equal to the column's maximum — counted by the function Values() delegates to, called with MaxLevels.Def.
+func laNonNull(c *Ctx, rule string) {
+	r, u := c.R, c.U
+	values := u.Func(rtPath, "OptionalField.Values")
+	if values == nil {
+		r.undecided(rule, "parquet.(*OptionalField).Values", "", "function not found")
+		return
+	}
+	var counter *ssa.Function
+	for _, b := range values.Blocks {
+		for _, ins := range b.Instrs {
+			if call, ok := ins.(*ssa.Call); ok {
+				if sc := call.Call.StaticCallee(); sc != nil && u.pkgPathOf(sc) == rtPath {
+					counter = sc
+				}
+			}
+		}
+	}
+	if counter == nil {
+		r.undecided(rule, "parquet.(*OptionalField).Values", u.Pos(values.Pos()), "Values does not delegate to a counting function")
+		return
+	}
+	r.count(rule+"/counters", 1)
+	key := u.FnName(counter)
+	pos := u.Pos(counter.Pos())
+	// parameters: the levels (a []uint8) and the maximum (an integer)
+	var levels, max *ssa.Parameter
+	for _, p := range counter.Params {
+		if _, ok := p.Type().Underlying().(*types.Slice); ok {
+			levels = p
+		} else if b, ok := p.Type().Underlying().(*types.Basic); ok && b.Info()&types.IsInteger != 0 {
+			max = p
+		}
+	}
+	if levels == nil || max == nil {
+		r.undecided(rule, key, pos, "unexpected signature")
+		return
+	}
+	var bad []string
+	incs := 0
+	for _, b := range counter.Blocks {
+		for _, ins := range b.Instrs {
+			bo, ok := ins.(*ssa.BinOp)
+			if !ok || bo.Op != token.ADD || !constIs(bo.Y, 1) {
+				continue
+			}
+			if _, isPhi := bo.X.(*ssa.Phi); !isPhi {
+				continue
+			}
+			isIdx := false
+			for _, ref := range *bo.Referrers() {
+				if ia, ok := ref.(*ssa.IndexAddr); ok && ia.Index == ssa.Value(bo) {
+					isIdx = true
+				}
+				if _, ok := ref.(*ssa.BinOp); ok {
+					isIdx = isIdx || false
+				}
+			}
+			for _, ref := range *bo.X.(*ssa.Phi).Referrers() {
+				if ia, ok := ref.(*ssa.IndexAddr); ok && ia.Index == bo.X {
+					isIdx = true
+				}
+			}
+			// the range index of `for _, d := range defs` feeds the loop test only
+			if !isIdx {
+				for _, ref := range *bo.Referrers() {
+					if cmp, ok := ref.(*ssa.BinOp); ok && cmp.Op == token.LSS && lenArg(cmp.Y) != nil {
+						isIdx = true
+					}
+				}
+			}
+			if isIdx {
+				continue
+			}
+			incs++
+			okG := guarded(b, func(iff *ssa.If, truth bool) bool {
+				cmp, ok := iff.Cond.(*ssa.BinOp)
+				if !ok {
+					return false
+				}
+				isElem := func(v ssa.Value) bool {
+					ld, ok := stripConvert(v).(*ssa.UnOp)
+					if !ok || ld.Op != token.MUL {
+						return false
+					}
+					ia, ok := ld.X.(*ssa.IndexAddr)
+					return ok && ia.X == ssa.Value(levels)
+				}
+				isMax := func(v ssa.Value) bool { return stripConvert(v) == ssa.Value(max) }
+				switch {
+				case isElem(cmp.X) && isMax(cmp.Y):
+					return (cmp.Op == token.EQL && truth) || (cmp.Op == token.GEQ && truth) || (cmp.Op == token.NEQ && !truth) || (cmp.Op == token.LSS && !truth)
+				case isMax(cmp.X) && isElem(cmp.Y):
+					return (cmp.Op == token.EQL && truth) || (cmp.Op == token.LEQ && truth) || (cmp.Op == token.NEQ && !truth) || (cmp.Op == token.GTR && !truth)
+				}
+				return false
+			}, 0)
+			if !okG {
+				bad = append(bad, "a level is counted as a stored value under another test than `level == maximum definition level`: nulls at deeper nesting have smaller, non-zero levels")
+			}
+		}
+	}
+	if incs != 1 {
+		bad = append(bad, fmt.Sprintf("%d counting increments, want one", incs))
+	}
+	// every call passes the column's maximum definition level
+	for _, cs := range callersOf(counter) {
+		args := callArgs(cs.Common())
+		for i, p := range counter.Params {
+			if p == max && i < len(args) {
+				if f := fieldOfLoad(stripConvert(args[i])); f == nil || f.Name() != "Def" {
+					bad = append(bad, "called at "+u.Pos(cs.Pos())+" with "+symExpr(args[i], 0)+" as the maximum, want MaxLevels.Def")
+				}
+			}
+		}
+	}
+	if len(bad) > 0 {
+		r.bad(rule, key, pos, strings.Join(bad, "; "))
+	} else {
+		r.ok(rule, key, pos, "counts the levels equal to MaxLevels.Def")
+	}
+	r.floor(rule+"/counters", 1, "valsFromDefs")
+}
+
+// laSizes (C01, C04): the per-page value counts DoRead returns (bool columns are unpacked page by page with them) are
+// each page's own: the page header's num_values for required columns, the non-null count of the levels decoded from
+// that very page for optional ones.
+func laSizes(c *Ctx, rule string) {
+	r, u := c.R, c.U
+	numValues := schemaField(u, "DataPageHeader", "NumValues")
+	n := 0
+	for _, name := range []string{"RequiredField.DoRead", "OptionalField.DoRead"} {
+		fn := u.Func(rtPath, name)
+		if fn == nil {
+			r.undecided(rule, "parquet."+name, "", "function not found")
+			continue
+		}
+		// the []int result
+		var sizesPhi []ssa.Value
+		for _, b := range fn.Blocks {
+			if ret, ok := lastInstr(b).(*ssa.Return); ok && len(ret.Results) == 3 {
+				if _, ok := ret.Results[1].Type().Underlying().(*types.Slice); ok {
+					sizesPhi = append(sizesPhi, ret.Results[1])
+				}
+			}
+		}
+		seen := map[ssa.Value]bool{}
+		var appends []*ssa.Call
+		var walk func(v ssa.Value)
+		walk = func(v ssa.Value) {
+			if seen[v] {
+				return
+			}
+			seen[v] = true
+			switch x := v.(type) {
+			case *ssa.Phi:
+				for _, e := range x.Edges {
+					walk(e)
+				}
+			case *ssa.Call:
+				if bi, ok := x.Call.Value.(*ssa.Builtin); ok && bi.Name() == "append" {
+					appends = append(appends, x)
+					walk(x.Call.Args[0])
+				}
+			}
+		}
+		for _, v := range sizesPhi {
+			walk(v)
+		}
+		key := "parquet.(*" + strings.Replace(name, ".", ").", 1) + " per-page counts"
+		if len(appends) == 0 {
+			r.undecided(rule, key, u.Pos(fn.Pos()), "the per-page counts are not built by append")
+			continue
+		}
+		for _, ap := range appends {
+			n++
+			r.count(rule+"/appends", 1)
+			vals := appendedValues(ap)
+			var bad []string
+			for _, v := range vals {
+				v = stripConvert(v)
+				if strings.HasPrefix(name, "Required") {
+					if fieldOfLoad(v) != numValues {
+						bad = append(bad, "a page's count is "+symExpr(v, 0)+", want that page header's num_values")
+					}
+					continue
+				}
+				call, ok := v.(*ssa.Call)
+				okCount := false
+				if ok && call.Call.StaticCallee() != nil {
+					for _, a := range callArgs(&call.Call) {
+						if ex, ok := a.(*ssa.Extract); ok {
+							if cl, ok := ex.Tuple.(*ssa.Call); ok {
+								if sc := cl.Call.StaticCallee(); sc != nil && callsRLE(u, sc) {
+									okCount = true
+								}
+							}
+						}
+					}
+				}
+				if !okCount {
+					bad = append(bad, "a page's count is "+symExpr(v, 0)+", want the non-null count of the definition levels decoded from that page (not of everything accumulated so far)")
+				}
+			}
+			if len(bad) > 0 {
+				r.bad(rule, key, u.Pos(ap.Pos()), strings.Join(bad, "; "))
+			} else {
+				r.ok(rule, key, u.Pos(ap.Pos()), "one entry per page, that page's own count")
+			}
+		}
+	}
+	_ = n
+	r.floor(rule+"/appends", 2, "RequiredField.DoRead, OptionalField.DoRead")
+}
